@@ -53,6 +53,17 @@ def main() -> int:
             j["work"] = str(batch)
             info[j["id"]] = ("matrix:" + label, {label.split(":")[1], "le" if le else "enum"})
             jobs.append(j)
+    for label, d in docs.typing_stress_docs():
+        for le in (False, True):
+            j = run.job(d, want=["manifest"], keep=True, cfg={"literal_enums": le}, plan={"fn": "import", "args": {}})
+            j["work"] = str(batch)
+            info[j["id"]] = (label, {label, "le" if le else "enum"})
+            jobs.append(j)
+    for label, d in docs.sharing_docs()[:: (3 if quick else 1)]:
+        j = run.job(d, want=["manifest"], keep=True, plan={"fn": "c11", "args": {"seed": seed()}})
+        j["work"] = str(batch)
+        info[j["id"]] = (label, {label})
+        jobs.append(j)
     for i in range(16 if quick else 400):
         d, feats = docs.random_doc(("C11", seed(), i))
         le = i % 3 == 2
